@@ -256,7 +256,17 @@ def build_queries(d):
             q = an(entity(views, *conds))
             with q:
                 Add(views, inference(cls)(**kw(0)))
-                with refinement(*[_cond(a, vars_) for a in qd["rule"]]):
+                rconds = []
+                for a in qd["rule"]:
+                    key = json.dumps(a)
+                    if d.get("share_subexpr") and key in shared_nodes:
+                        rconds.append(shared_nodes[key])
+                    else:
+                        rc = _cond(a, vars_)
+                        if d.get("share_subexpr"):
+                            shared_nodes.setdefault(key, rc)
+                        rconds.append(rc)
+                with refinement(*rconds):
                     Add(views, inference(cls)(**kw(1)))
             if len(sel) == 1:
                 ext = lambda r: [r.tag, r.p.ident]
@@ -794,8 +804,29 @@ def empty_hist_cases() -> List[dict]:
     return out
 
 
+def shared_with_rule_hist_cases() -> List[dict]:
+    """a PLAIN query shares condition objects (the base condition and / or the refinement condition) with a RULE query:
+    the conclusions hang on the shared nodes, the plain query must not care (regression C03-h, krrood 784716e..5943e20)"""
+    out = []
+    W, A = [[10, 11, 12, 13]], [[10, 3], [11, 0], [12, 2], [13, 2]]
+    base, ref = ["C", 0, "gt", 0], ["C", 0, "ne", 1]
+    rule_q = {"sel": [0], "conds": [base], "rule": [ref], "form": "entity"}
+    plains = [{"sel": [0], "conds": [base], "form": "entity"},
+              {"sel": [0], "conds": [ref], "form": "set_of"},
+              {"sel": [0], "conds": [["C", 0, "le", 3], ref, base], "form": "entity"},
+              {"sel": [0], "conds": [base, ["C", 0, "le", 2]], "form": "entity"}]
+    for pq in plains:
+        for evals in ([1, 0, 1], [0, 1], [1, 0], [0, 1, 0, 1], [1, 1, 0, 0, 1]):
+            for order in (0, 1):
+                qs = [rule_q, pq] if order == 0 else [pq, rule_q]
+                ev = evals if order == 0 else [1 - e for e in evals]
+                out.append({"kind": "hist", "W": W, "A": A, "queries": qs, "evals": ev, "share_subexpr": True,
+                            "doms": ["tuple"], "src": "shared-with-rule"})
+    return out
+
+
 def gen_hist_cases(tier, rng) -> List[dict]:
-    out = empty_hist_cases()
+    out = empty_hist_cases() + shared_with_rule_hist_cases()
     n = 1200 if tier == "quick" else 8000
     for k in range(n):
         nvars = rng.randint(1, 3)
@@ -818,12 +849,19 @@ def gen_hist_cases(tier, rng) -> List[dict]:
             else:
                 q["rule"] = [gen_atom(rng, q["sel"])]
             q["form"] = "entity"
+        share = rng.chance(0.3)
+        if share and queries[0].get("rule") is not None and len(queries) > 1 and rng.chance(0.7):
+            # a plain query takes over condition objects of the rule query (its base condition and / or its refinement condition)
+            other = queries[1]
+            pool = [a for a in queries[0]["conds"] + queries[0]["rule"] if query_vars({"sel": [], "conds": [a]}) <= set(other["sel"]) | query_vars(other)]
+            if pool:
+                other["conds"] = other["conds"] + [rng.choice(pool)]
         evals = [rng.randint(0, len(queries) - 1) for _ in range(rng.randint(2, 4))]
         if rng.chance(0.5):
             evals = [evals[0]] + evals  # make sure something is re-evaluated
         out.append({"kind": "hist", "W": W, "A": A, "queries": queries, "evals": evals, "foreign": gen_foreign(rng, W),
                     "doms": [rng.choice(["list", "gen", "tuple"]) for _ in W],
-                    "share_subexpr": rng.chance(0.3)})
+                    "share_subexpr": share})
     return out
 
 
